@@ -219,8 +219,9 @@ func (r *run) waves(s *gocql.Session, pool *node.ServerConn, poolConn *gocql.Con
 
 // stallScenario is the F-C01-1 history: the node sends A's header and 4 body bytes, stalls until the
 // client has run into five read-deadline expirations, then delivers the rest of A's body, which is
-// shaped like a complete rows frame on B's stream id. The token monitor then sees B handed content of
-// A's response.
+// shaped like a complete rows frame on B's stream id. Before the fix of finding body-timeout-misroute
+// the driver handed B content of A's response; now the failed body read must end the connection, so B
+// ends with a connection error (or its own answer), never with A's content.
 func (r *run) stallScenario(s *gocql.Session, pool *node.ServerConn, rep *Report, viol violFn) {
 	h := r.h
 	tokA, tokB := tokenOf(h.Index, 0), tokenOf(h.Index, 1)
@@ -286,9 +287,9 @@ func (r *run) stallScenario(s *gocql.Session, pool *node.ServerConn, rep *Report
 		return
 	}
 	rep.Note = fmt.Sprintf("stall: A=%s/%q B=%s/%q", a.Class, a.Seen, b.Class, b.Seen)
-	// the trigger of the known finding: a mid-body stall across five read timeouts with another request in flight
-	r.checkResult(a, rep, viol, "body-timeout-misroute")
-	r.checkResult(b, rep, viol, "body-timeout-misroute")
+	// (this used to be known finding body-timeout-misroute; since its fix a foreign token here is a plain violation)
+	r.checkResult(a, rep, viol, "")
+	r.checkResult(b, rep, viol, "")
 	rep.Results = append(rep.Results, a, b)
 	rep.NonTriv = true
 	// B's own answer (never sent) would otherwise stay reserved: answer it now, it must be discarded or
@@ -313,4 +314,103 @@ func (r *run) releaseStragglers(f Fate) {
 	}
 	r.mu.Unlock()
 	r.release(toks)
+}
+
+// coalCancelScenario: write coalescing with a long window; the first CancelN callers' contexts expire
+// inside the window, after their frames were handed to the flusher. Their frames are written all the
+// same, so their stream ids must stay reserved until the (late) answers have arrived. A second,
+// concurrent wave is then held at the node while the late answers of the first wave are sent first: if
+// an id of a cancelled request had been given to a caller of the second wave, that caller would be handed
+// the cancelled request's response.
+func (r *run) coalCancelScenario(s *gocql.Session, pool *node.ServerConn, rep *Report, viol violFn) {
+	h := r.h
+	K := len(h.Fates)
+	res := make([]CallerResult, K)
+	var wg sync.WaitGroup
+	var cancels []context.CancelFunc
+	for i := 0; i < K; i++ {
+		ctx := context.Background()
+		if i < h.CancelN {
+			c, cancel := context.WithTimeout(ctx, time.Duration(h.CancelMs)*time.Millisecond)
+			ctx = c
+			cancels = append(cancels, cancel)
+		}
+		wg.Add(1)
+		go func(i int, ctx context.Context) {
+			defer wg.Done()
+			res[i] = doQuery(s, ctx, tokenOf(h.Index, i))
+		}(i, ctx)
+	}
+	defer func() {
+		for _, c := range cancels {
+			c()
+		}
+	}()
+	if !watchdog(20*time.Second, wg.Wait) {
+		viol("caller-hang", "", "coalescer scenario: first wave did not return within 20s\n%s", goroutineDump())
+		return
+	}
+	for i := range res {
+		r.checkResult(res[i], rep, viol, "")
+		if i >= h.CancelN && res[i].Class != "ok" {
+			viol("outcome", "", "caller %s: request answered by the node on a healthy connection ended with %s (%s)", res[i].Token, res[i].Class, res[i].Err)
+		}
+		if i < h.CancelN && (res[i].Class == "ok" || res[i].Class == "errframe") {
+			viol("token", "", "caller %s was handed a response (%q) although the node had not answered its request", res[i].Token, res[i].Seen)
+		}
+	}
+	rep.Results = append(rep.Results, res...)
+	rep.NonTriv = true
+
+	// second wave, concurrent, held at the node
+	M := h.Wave2
+	r.mu.Lock()
+	for j := 0; j < M; j++ {
+		r.fates[tokenOf(h.Index, K+j)] = FHeld
+	}
+	r.mu.Unlock()
+	res2 := make([]CallerResult, M)
+	var wg2 sync.WaitGroup
+	for j := 0; j < M; j++ {
+		wg2.Add(1)
+		go func(j int) {
+			defer wg2.Done()
+			res2[j] = doQuery(s, context.Background(), tokenOf(h.Index, K+j))
+		}(j)
+	}
+	r.n.WaitFor(3*time.Second, func() bool {
+		r.mu.Lock()
+		defer r.mu.Unlock()
+		k := 0
+		for j := 0; j < M; j++ {
+			if r.received[tokenOf(h.Index, K+j)] != nil {
+				k++
+			}
+		}
+		return k == M
+	})
+	// the late answers of the first wave leave first, then the second wave's own
+	r.mu.Lock()
+	late := append([]string(nil), r.lateSeq...)
+	r.lateDone = true
+	r.mu.Unlock()
+	r.release(order(late, h.Order, h.OrderSeed))
+	r.releaseStragglers(FLate)
+	r.mu.Lock()
+	hs := append([]string(nil), r.heldSeq...)
+	r.heldDone = true
+	r.mu.Unlock()
+	r.release(order(hs, h.Order, h.OrderSeed+1))
+	r.releaseStragglers(FHeld)
+	if !watchdog(20*time.Second, wg2.Wait) {
+		viol("caller-hang", "", "coalescer scenario: second wave did not return within 20s\n%s", goroutineDump())
+		return
+	}
+	for j := range res2 {
+		r.checkResult(res2[j], rep, viol, "")
+		if res2[j].Class != "ok" {
+			viol("outcome", "", "caller %s: request answered by the node on a healthy connection ended with %s (%s)", res2[j].Token, res2[j].Class, res2[j].Err)
+		}
+	}
+	rep.Results = append(rep.Results, res2...)
 }
